@@ -43,7 +43,7 @@ func (c10) Assumptions() []string {
 func (c10) DiedIsViolation() bool      { return true }
 func (c10) MinNontrivial(t string) int { return 500 }
 
-var hostileActionBits = []string{"/* a|b; %% */", "if x { y() }", "// c: d %token\n", "s := \"q: r | t ;\"", "{ { } }", "/**/", "/** doc **/", "x = '|'", "%prec", "%%", "for { break }", "a : b ;", "/* {} */"}
+var hostileActionBits = []string{"/* a|b; %% */", "if x { y() }", "// c: d %token\n", "s := \"q: r | t ;\"", "{ { } }", "/**/", "/** doc **/", "x = '|'", "%prec", "%%", "for { break }", "a : b ;", "/* {} */", "/* 加减法 — é */", "s = \"ünï\""}
 
 func hostileAction(r *rand.Rand, k int) string {
 	var sb strings.Builder
@@ -79,9 +79,9 @@ func (c10) Run(seed int64, tier string, idx int) Outcome {
 		}
 	}
 	parts := render.Parts{
-		Prologue: "package p\n// prologue { with } braces %% and 'quotes'\nimport \"fmt\"",
-		Union:    "\n\ts string // first\n\tt string\n\tn int /* { nested } */\n\tm int\n",
-		Epilogue: "\n// epilogue %% { } : | ;\nfunc GetToken() {}\n",
+		Prologue: "package p\n// prologue { with } braces %% and 'quotes' — ünïcödé 加\nimport \"fmt\"",
+		Union:    "\n\ts string // first ½\n\tt string\n\tn int /* { nested } */\n\tm int\n",
+		Epilogue: "\n// epilogue %% { } : | ; 終\nfunc GetToken() {}\n",
 	}
 	if idx%4 == 1 {
 		parts.Epilogue = ""
